@@ -2185,7 +2185,9 @@ def hyp_to_affine_dist(r):
     the Klein model.
 
     """
-    return (np.exp(2 * r) - 1) / (1 + np.exp(2 * r))
+    # (e^(2r) - 1) / (e^(2r) + 1), also for lists of distances (2 * r
+    # would repeat a list) and without overflow for large r
+    return np.tanh(r)
 
 def _loxodromic_basis_change(dimension):
     # WRAPLITERAL
